@@ -40,9 +40,29 @@ def shards(tier: str) -> int:
     return 16
 
 
+# ambiguous grammars: the ORDER of the parse forest (and the first tree) must be the same in every process
+AMBIGUOUS = [
+    ("<start> ::= <a1> | <a2> | <a3> | <a4> | <a5> | <a6>\n" + "".join(f"<a{i}> ::= <w>\n" for i in range(1, 7)) + "<w> ::= 'x'+\n", ["x", "xxx"]),
+    ("<start> ::= <i>+\n<i> ::= <p1> | <p2> | <p3> | <p4> | <p5>\n<p1> ::= 'a'\n<p2> ::= 'a' 'a'?\n<p3> ::= 'a'{1,2}\n<p4> ::= 'a' | 'b'\n<p5> ::= 'aa' | 'a'\n", ["a", "aa", "ab"]),
+    ("<start> ::= <e>\n<e> ::= <e> '+' <e> | 'n'\n", ["n+n+n", "n+n+n+n", "n+n"]),
+    ("<start> ::= <a> <a>\n<a> ::= 'x'*\n", ["xx", "xxx", ""]),
+    ("<start> ::= <s>\n<s> ::= 'a' <s> | <s> 'a' | 'a'\n", ["aaa", "aaaa"]),
+    ("<start> ::= (<p> | <q>)+\n<p> ::= 'ab' | 'a'\n<q> ::= 'b' | 'ba'\n", ["abab", "aba", "abba"]),
+    ("<start> ::= <x>{1,3} <y>{1,3}\n<x> ::= 'a' | 'aa'\n<y> ::= 'a' | 'b'\n", ["aaa", "aaaa", "aaab"]),
+    ("<start> ::= <u> | <v>\n<u> ::= 'a' <u>? \n<v> ::= <v>? 'a'\nwhere len(str(<start>)) >= 2\n", ["aa", "aaa"]),
+]
+
+
 @st.composite
 def configs(draw: Any) -> dict[str, Any]:
-    kind = draw(st.sampled_from(["template", "template", "specgen", "c07"]))
+    kind = draw(st.sampled_from(["template", "template", "specgen", "c07", "ambiguous"]))
+    if kind == "ambiguous":
+        text, words = draw(st.sampled_from(AMBIGUOUS))
+        return {
+            "spec_text": text,
+            "settings": {"population_size": draw(st.sampled_from([5, 10])), "max_nodes": 20, "random_seed": draw(st.integers(0, 10**6))},
+            "gens": draw(st.integers(2, 5)), "desired": draw(st.integers(2, 5)), "words": words,
+        }
     if kind == "template":
         spec = draw(c01.template_specs())
     elif kind == "specgen":
